@@ -64,6 +64,15 @@ class FsmTracker(TagTracker):
                     l.get("t") in INT_TYPES and r.get("k") == "int" and ((c["op"] == "==") == truth):
                 state = dict(state)
                 state[("E", "param:%s" % l["n"])] = r["v"]
+        # the received type was shown EQUAL to the expected state on this edge: whatever follows on this path is the
+        # expected message, not an exception (the engine has no relation between the local and the field, so without this
+        # mark the later tests `hsType == CLIENT_HELLO` and `hsState == DONE` both succeed on this path)
+        if c is not None and c.get("k") == "bin" and c["op"] in ("==", "!=") and ((c["op"] == "==") == truth):
+            l_, r_ = strip(c["l"]), strip(c["r"])
+            for a_, b_ in ((l_, r_), (r_, l_)):
+                if a_ is not None and b_ is not None and a_.get("k") == "var" and b_.get("k") == "mem" and b_.get("f") == "hsState":
+                    state = dict(state)
+                    state[("E", "type_is_expected")] = 1
         # `client authentication not requested yet in this handshake` was tested on this edge (the arm that admits a
         # CertificateRequest sets the bit before it moves hsState, so the value at the store is of no use)
         from sa import cfgutil as _cu
@@ -362,6 +371,8 @@ def run(tier):
         fl = state.get(K_FLAGS, av.TOP)
         if cn == "client":
             return av.bit_known(fl, F("SSL_FLAGS_SERVER")) == 0
+        if cn == "server":
+            return av.bit_known(fl, F("SSL_FLAGS_SERVER")) == 1
         if cn == "dhe":
             return av.bit_known(fl, F("SSL_FLAGS_DHE_KEY_EXCH")) == 1
         if cn == "not_dhe":
@@ -384,6 +395,8 @@ def run(tier):
         ht = state.get(("L", hs_local), av.TOP)
         if newv is None or av.is_const(ht) != newv:
             continue        # not 'state := received type'
+        if state.get(("E", "type_is_expected")) == 1:
+            continue        # the dispatcher established hsType == hsState on this path: the expected message
         if av.is_const(old) == newv:
             continue
         ln = None
